@@ -27,7 +27,7 @@ from pexpect.exceptions import EOF, TIMEOUT
 PROPERTY = 'C12'
 RULE = ('Hypothesis-generated child dialogues (1-7 steps: text, payload up to 200 KB, prompt+read, sleep) x event tables '
         '(dict|list; string|function|method responses; callbacks returning None|string|True; EOF/TIMEOUT keys) x '
-        'bytes|utf-8 x withexitstatus, on real children.  Non-trivial: >= 2 events fired, or a TIMEOUT event fired '
+        'bytes|utf-8 x withexitstatus x searchwindowsize {unset, 4000} passed through **kwargs, on real children.  Non-trivial: >= 2 events fired, or a TIMEOUT event fired '
         'mid-stream, or more than maxread (2000) bytes of output between two events.  Distinct by hash of the case.')
 ASSUMPTIONS = [
     'prompt tokens are prefix-free and never occur in the payload text, so the stream order of occurrences is known',
@@ -90,7 +90,10 @@ def cases(draw):
     return {'text_mode': text_mode, 'steps': steps, 'events': events, 'order': list(order),
             'as_list': draw(st.booleans()), 'exit': draw(st.sampled_from([0, 0, 3, 77])),
             'withexit': draw(st.booleans()), 'slow': slow, 'extra': draw(st.sampled_from([None, 'xa', 7])),
-            'default_timeout': draw(st.integers(0, 3)) == 0}
+            'default_timeout': draw(st.integers(0, 3)) == 0,
+            # passed through run(**kwargs): a search window larger than any read plus any prompt changes nothing
+            # about which events fire, and must change nothing about the output that is returned
+            'sws': draw(st.sampled_from([None, None, 4000]))}
 
 
 class Responder(object):
@@ -227,6 +230,8 @@ def check_case(case, col=None):
         kw = {'echo': False}
         if text_mode:
             kw['encoding'] = 'utf-8'
+        if case.get('sws'):
+            kw['searchwindowsize'] = case['sws']
         t0 = time.time()
         with guard('run()', allow=()):
             res = pexpect.run(line, timeout=T, withexitstatus=case['withexit'], events=events,
